@@ -77,7 +77,8 @@ def wiring(rep, model):
                 continue
             b = evs[0]['bound']
             want = {'sig': ('param', 'sig'), 'fs': ('param', 'fs'), 'f_range': ('param', 'f_range'), 'center_extrema': ('param', 'center_extrema'), 'find_extrema_kwargs': fe}
-            bad = {k: T.brief(b.get(k), 60) if b.get(k) is not None else 'unbound' for k in want if b.get(k, NONE if k == 'find_extrema_kwargs' else None) != want[k]}
+            bad = {k: T.brief(b.get(k), 60) if b.get(k) is not None else 'unbound' for k in want if b.get(k, NONE if k == 'find_extrema_kwargs' else None) != want[k]
+                   and not (k == 'find_extrema_kwargs' and common.same_extrema_options(model, b.get(k, NONE), want[k]))}
             if b.get('n_cycles', C(3)) != C(3):
                 bad['n_cycles'] = T.brief(b['n_cycles'], 80)
             if bad or evs[0]['problems']:
